@@ -5,6 +5,7 @@ import (
 	"crypto/x509"
 	"fmt"
 	"sync"
+	"time"
 
 	"github.com/notaryproject/notation-core-go/revocation"
 	"github.com/notaryproject/notation-core-go/revocation/result"
@@ -171,3 +172,10 @@ type ScriptedManager struct{ P *ScriptedPlugin }
 
 func (m ScriptedManager) Get(ctx context.Context, name string) (pf.Plugin, error) { return m.P, nil }
 func (m ScriptedManager) List(ctx context.Context) ([]string, error)               { return []string{"plug"}, nil }
+
+// OKRevLegacy implements the deprecated revocation.Revocation interface and reports every certificate as OK.
+type OKRevLegacy struct{}
+
+func (OKRevLegacy) Validate(chain []*x509.Certificate, signingTime time.Time) ([]*result.CertRevocationResult, error) {
+	return OKRev{}.ValidateContext(context.Background(), revocation.ValidateContextOptions{CertChain: chain, AuthenticSigningTime: signingTime})
+}
